@@ -208,7 +208,10 @@ func (r Rule) Apply(facts *FactSet, newFacts *FactSet, syms *SymbolTable) error 
 		}
 	}
 
-	combinations := combine(variables, r.Body, r.Expressions, facts, syms)
+	// closing stop releases the producer goroutine when we return before draining the channel
+	stop := make(chan struct{})
+	defer close(stop)
+	combinations := combine(variables, r.Body, r.Expressions, facts, syms, stop)
 
 	for res := range combinations {
 		if res.error != nil {
@@ -482,7 +485,7 @@ func (m MatchedVariables) Clone() MatchedVariables {
 	return res
 }
 
-func combine(variables MatchedVariables, predicates []Predicate, expressions []Expression, facts *FactSet, syms *SymbolTable) <-chan struct {
+func combine(variables MatchedVariables, predicates []Predicate, expressions []Expression, facts *FactSet, syms *SymbolTable, stop <-chan struct{}) <-chan struct {
 	MatchedVariables
 	error
 } {
@@ -565,10 +568,13 @@ func combine(variables MatchedVariables, predicates []Predicate, expressions []E
 						res, err := e.Evaluate(complete_vars, syms)
 						if err != nil {
 							fmt.Printf("expression error: %+v", err)
-							c <- struct {
+							select {
+							case c <- struct {
 								MatchedVariables
 								error
-							}{complete_vars, err}
+							}{complete_vars, err}:
+							case <-stop:
+							}
 
 							return
 						}
@@ -580,10 +586,14 @@ func combine(variables MatchedVariables, predicates []Predicate, expressions []E
 
 					if valid {
 						//fmt.Printf("sending valid variables %+v\n", complete_vars)
-						c <- struct {
+						select {
+						case c <- struct {
 							MatchedVariables
 							error
-						}{complete_vars, nil}
+						}{complete_vars, nil}:
+						case <-stop:
+							return
+						}
 					}
 				} else {
 					// if all predicates match but variables are not complete, it means
